@@ -111,8 +111,8 @@ def r2_offset(R, sh: SolverShape) -> None:
         where=sh.where(cp.node),
     )
     # (a2) the check values used as the starting point are read after the seeding copy
-    firsts = [n for n in sh.cfg.nodes if n.kind == 'stmt' and isinstance(n.ast, ast.Assign) and isinstance(n.ast.value, ast.Call)
-              and dotted(n.ast.value.func) == 'get_check_values' and not sh.in_loop(n)]
+    from rules.solver_common import is_check_read
+    firsts = [n for n in sh.cfg.nodes if n.kind == 'stmt' and isinstance(n.ast, ast.Assign) and is_check_read(sh, n.ast.value) and not sh.in_loop(n)]
     for n in firsts:
         R.check(not sh.cfg.reaches(n.id, cp.node.id), sh.q, 'offset-copy-before-first-read',
                 'the starting check values are read after the offset copy (pass 1 is compared with the seeded values)',
